@@ -278,8 +278,68 @@ def special_valid():
         ("network-traffic/ports-zero", "2.1", "observables:network-traffic", dict(nt, src_port=0, dst_port=0)),
         ("network-traffic/byte-counts-zero", "2.1", "observables:network-traffic", dict(nt, src_byte_count=0, dst_byte_count=0, src_packets=0, dst_packets=0)),
         ("network-traffic/ended+is_active-false", "2.1", "observables:network-traffic", dict(nt, start="2016-05-12T08:17:27Z", end="2016-05-12T08:17:27Z", is_active=False)),
+        # integers a double cannot hold: content, not approximations
+        ("big-integers/counters", "2.1", "observables:network-traffic", dict(nt, src_byte_count=2 ** 53 + 1, dst_byte_count=2 ** 63 - 1, src_packets=1234567890123456789, dst_packets=2 ** 64 + 1)),
+        ("big-integers/file-size", "2.1", "observables:file", dict(g21.minimal("observables:file"), size=2 ** 53 + 1)),
+        ("big-integers/sighting-count-is-bounded-but-exact", "2.1", "objects:sighting", dict(g21.minimal("objects:sighting"), count=999999999)),
     ]
     return out
+
+
+BYTE_FORMS = [("bytes/utf-8", lambda t: t.encode("utf-8")), ("bytes/utf-8-with-BOM", lambda t: t.encode("utf-8-sig")), ("bytes/utf-16", lambda t: t.encode("utf-16")),
+              ("bytes/utf-32", lambda t: t.encode("utf-32")), ("bytearray/utf-8", lambda t: bytearray(t.encode("utf-8"))),
+              ("BytesIO/utf-8", lambda t: __import__("io").BytesIO(t.encode("utf-8"))), ("BytesIO/utf-8-with-BOM", lambda t: __import__("io").BytesIO(t.encode("utf-8-sig"))),
+              ("StringIO", lambda t: __import__("io").StringIO(t)), ("text/escaped-non-ascii", lambda t: t)]
+
+
+def run_byte_forms(case, part):
+    """the DOCUMENT arriving in the other forms parse() documents (bytes in the encodings JSON allows, with and without a byte-order mark, byte and text streams):
+    the same object as from the text"""
+    import stix2
+    env.reset()
+    version, key = case["version"], case["key"]
+    wrapped = loc = None
+    for k2, l2, i2, w2, loc2 in harness.all_cases(version, keys=[key]):
+        if l2 == "max":
+            wrapped, loc = w2, loc2
+            break
+    if wrapped is None:
+        return
+    w = copy.deepcopy(wrapped)
+    target = harness.locate(w, loc)
+    for k, v in list(target.items()):
+        if isinstance(v, str) and k in ("name", "description", "value", "path", "display_name", "subject", "key", "user_id", "product", "opinion", "abstract", "content", "statement"):
+            target[k] = v + " caf\u00e9 \u6f22 \U0001f600"        # non-ASCII content makes the encodings differ
+            break
+    if model.validate(w, version):
+        w = copy.deepcopy(wrapped)
+    text = json.dumps(w, ensure_ascii=(case.get("ascii", False)))
+    for fname, mk in BYTE_FORMS:
+        t = json.dumps(w, ensure_ascii=True) if fname == "text/escaped-non-ascii" else text
+        check_parse(part, lambda mk=mk, t=t: mk(t), loc, harness.locate(w, loc), version, key, dict(case, context="parse(%s)" % fname), "document-form/" + fname.split("/")[0] + ("-with-BOM" if "BOM" in fname else ""), "bytes:")
+
+
+def run_process_tz(case, part):
+    """ENVIRONMENT: the process time zone is not part of the content - timestamps given as text (incl. wall-clock readings a zone skips or repeats) and as naive datetime
+    objects are read as UTC whatever TZ says"""
+    import stix2
+    texts = ["2016-03-13T02:30:00Z", "2016-03-13T07:30:00.5Z", "2016-11-06T01:30:00.000Z", "2021-10-31T00:30:00Z", "2021-10-31T01:30:00Z", "2021-04-03T15:45:00Z", "2020-01-15T12:30:45.123456Z",
+             "0001-01-01T00:00:00Z", "9999-12-31T23:59:59.999999Z", "1970-01-01T00:00:00Z", "1969-12-31T23:59:59Z"]
+    g = gen.Gen("2.1")
+    base = g.minimal("objects:campaign")
+    for zone in env.process_tz.ZONES:
+        with env.process_tz(zone):
+            for t in texts:
+                for form in ("text", "naive-datetime"):
+                    inst = dict(base, first_seen=t)
+                    given = dict(inst)
+                    if form == "naive-datetime":
+                        y, mo, d, h, mi, sec, us = tsfmt.split(tsfmt.instant_of(t) // tsfmt.PS_PER_US)
+                        import datetime as _dt
+                        given["first_seen"] = _dt.datetime(y, mo, d, h, mi, sec, us)
+                    check_parse(part, lambda given=given: copy.deepcopy(given), (), inst, "2.1", "objects:campaign", {"kind": "process-tz", "zone": zone, "value": t, "form": form, "context": "parse(dict)"},
+                                "process-time-zone/" + form, "tz:")
+    env.reset()
 
 
 def run_special_valid(case, part):
@@ -299,6 +359,10 @@ def run_special_valid(case, part):
 
 
 def run_any(case, part):
+    if case.get("kind") == "byte-forms":
+        return run_byte_forms(case, part)
+    if case.get("kind") == "process-tz":
+        return run_process_tz(case, part)
     if case.get("kind") == "special-valid":
         return run_special_valid(case, part)
     if case.get("kind") == "text-case":
@@ -352,6 +416,10 @@ def run(run):
     for version, which in (("2.0", "long-lists"), ("2.1", "long-lists"), ("2.1", "prefix-keys"), ("2.1", "long-nested-list")):
         cases.append({"kind": "granular-extra", "version": version, "which": which})
     cases.append({"kind": "special-valid"})
+    cases.append({"kind": "process-tz"})
+    for version in ("2.0", "2.1"):
+        for key in gen.Gen(version).top_keys():
+            cases.append({"kind": "byte-forms", "version": version, "key": key})
     run.pmap(run_any, cases, order_independent=True)
     run.part.sample({"version": "2.1", "key": "observables:network-traffic", "label": "min+end#2", "instance": "minimal network-traffic + end='2017-05-12T08:17:27.5Z' (+ is_active=false)"})
     run.part.sample({"version": "2.0", "key": "observables:file", "label": "max", "context": "member '0' of an observed-data container with its referenced members"})
